@@ -99,6 +99,43 @@ def bookmark_regex(t0: str, t1: str, t2: str, use_before: bool) -> bool:
     return done(_chars_before(p, marks[0]) == exp)
 
 
+POS = int(os.environ.get("VERIF_POS", "0"))  # which match the mark is put at (concrete per process; -1 = the last one)
+
+
+def bookmark_regex_pos(t0: str, t1: str, t2: str, use_before: bool) -> bool:
+    """
+    pre: len(t0) <= 2 and len(t1) <= 1 and len(t2) <= 2 and all(c in "ab" for c in t0 + t1 + t2)
+    post: _
+    """
+    # set_bookmark(before=/after= regex, position=POS): the matches are counted over the text runs in
+    # document order; POS designates one of them, -1 the last one of the last run that has one; the mark
+    # sits right before/after exactly that match; no such match -> ValueError and the tree untouched
+    para, p, a, sp = mk(t0, t1, t2)
+    before = S.plain_text(p)
+    snap = S.canon(p)
+    spots = []
+    acc = 0
+    for r in runs(t0, t1, t2):
+        for m in re.finditer(PAT, r):
+            spots.append(acc + (m.start() if use_before else m.end()))
+        acc += len(r)
+    if POS < 0:
+        exp = spots[-1] if spots else None
+    else:
+        exp = spots[POS] if POS < len(spots) else None
+    try:
+        if use_before:
+            para.set_bookmark("bm", before=PAT, position=POS)
+        else:
+            para.set_bookmark("bm", after=PAT, position=POS)
+    except ValueError:
+        return done(exp is None and S.canon(p) == snap)
+    if exp is None or S.plain_text(p) != before:
+        return done(False)
+    marks = [n for n in p.iterdescendants() if n.tag == S.TXT + "bookmark"]
+    return done(len(marks) == 1 and _chars_before(p, marks[0]) == exp)
+
+
 def _chars_before(root, target):
     """number of characters of the flat text that precede `target` in document order"""
     state = {"n": 0, "found": False}
@@ -143,18 +180,20 @@ def strip_spans(t0: str, t1: str, t2: str) -> bool:
     return done(ok)
 
 
-def delete_keep_tail(t0: str, t1: str, t2: str, keep: bool, inner: bool) -> bool:
+def delete_keep_tail(t0: str, t1: str, tl: str, keep: bool, inner: bool) -> bool:
     """
-    pre: len(t0) <= 2 and len(t1) <= 2 and len(t2) <= 2 and all(c in "ab" for c in t0 + t1 + t2)
+    pre: len(t0) <= 2 and len(t1) <= 2 and len(tl) <= 2 and all(c in "a " for c in t0 + t1 + tl)
     post: _
     """
     # deleting an inline element removes its own content only; with keep_tail (the default) the text
-    # that follows it stays
-    para, p, a, sp = mk(t0, t1, t2)
+    # that follows it stays - every character of it, raw runs of spaces included (text read from a file)
+    para, p, a, sp = mk(t0, t1, "a")
     if inner:
+        sp.tail = tl
         Element.from_tag(a).delete(Element.from_tag(sp), keep_tail=keep)
-        exp = t0 + t1 + ("b" if keep else "") + "ab"
+        exp = t0 + t1 + (tl if keep else "") + "ab"
     else:
+        a.tail = tl
         para.delete(Element.from_tag(a), keep_tail=keep)
-        exp = t0 + ("ab" if keep else "")
+        exp = t0 + (tl if keep else "")
     return done(S.plain_text(p) == exp)
